@@ -99,6 +99,15 @@ Theorem c14_gives_up_accumulated : forall e1 e2 bo cf cfg,
 Proof. exact run_within_limit. Qed.
 Print Assumptions c14_gives_up_accumulated.
 
+(** Attempt durations count: under a clock that is read after each attempt ([Clock_counts_attempts]: attempt k
+    took [dur k], every wait lasts its length), everything spent so far - all attempts including the one that has
+    just failed, all waits - plus the throttle about to be honoured stays within MaxElapsedTime, for every script. *)
+Theorem c14_gives_up_counts_attempts : forall e1 e2 bo dur cf cfg,
+  max_elapsed cfg <> 0 -> forall outs, enabled cfg = true -> Clock_counts_attempts e1 e2 bo dur outs ->
+  Spent_within_limit dur (max_elapsed cfg) outs (retry_run e1 e2 bo cf cfg outs).
+Proof. exact run_spent_within_limit. Qed.
+Print Assumptions c14_gives_up_counts_attempts.
+
 (** Retry disabled: one attempt, no wait, its outcome reported. *)
 Theorem c14_disabled_single_attempt : forall e1 e2 bo cf cfg outs,
   enabled cfg = false ->
@@ -194,4 +203,20 @@ Proof.
     { do 6 (destruct k as [|k]; [cbn; lia|]). cbn. lia. }
     lia.
   - vm_compute. repeat split.
+Qed.
+
+(** A slow failing attempt (300 of 500) whose reply asks for 300 more: the export gives up after the first attempt. *)
+Example ex_slow_attempt :
+  let e := fun k => 300 + Z.of_nat k * 600 in
+  let outs := [ORetry 300; ORetry 300; OSuccess false] in
+  Clock_counts_attempts e e (fun _ => 1) (fun _ => 300) outs /\
+  let o := retry_run e e (fun _ => 1) (fun _ _ => false) {| enabled := true; max_elapsed := 500 |} outs in
+  attempts o = 1%nat /\ res o = RErr EMaxWouldElapse.
+Proof.
+  cbv zeta. split.
+  - split; [cbn; lia|]. intros k. split; [lia|].
+    assert (H : throttle_of (nth k [ORetry 300; ORetry 300; OSuccess false] OFinal) <= 300).
+    { do 4 (destruct k as [|k]; [cbn; lia|]). cbn. lia. }
+    lia.
+  - vm_compute. split; reflexivity.
 Qed.
